@@ -1063,8 +1063,14 @@ impl<'a> Searcher<'a> {
                     ));
                 }
                 _ => {
-                    if let Ok(path) = crate::util::canonical_path(&entry.path()) {
-                        return Variant::from_string(&path);
+                    // the entry's own location: its directory resolved, its name kept. Resolving
+                    // the whole path gave a link target's location, and nothing for a dangling link
+                    let path = entry.path();
+                    if let Some(parent) = path.parent() {
+                        if let Ok(dir) = crate::util::canonical_path(&parent.to_path_buf()) {
+                            let abs_path = PathBuf::from(dir).join(entry.file_name());
+                            return Variant::from_string(&abs_path.to_string_lossy().to_string());
+                        }
                     }
                 }
             },
